@@ -5,8 +5,6 @@ import (
 	"errors"
 	"fmt"
 	"math/rand"
-	"os"
-	"runtime"
 	stdsync "sync"
 	"sync/atomic"
 	"time"
@@ -16,7 +14,6 @@ import (
 	"github.com/NethermindEth/juno/core/felt"
 	"github.com/NethermindEth/juno/starknet"
 	jsync "github.com/NethermindEth/juno/sync"
-	"github.com/NethermindEth/juno/utils/log"
 
 	"verifharness/internal/chainkit"
 	"verifharness/internal/vh"
